@@ -50,6 +50,10 @@ func C06(c *core.Ctx) {
 		}
 	}
 	ruleFidelity(c, "pattern", "minLength", "maxLength")
+	// a check only runs on a field the decoder fills: the field's identifier is exported for every name and capitalization (A-IDENT);
+	// and it is the check of THIS schema: a same-named schema is bound to the declaration of the equal one (A-DEDUP)
+	ruleIdent(c)
+	ruleDedup(c)
 	runCompositions(c, rules, "Length", "pattern")
 	// the checks of a declaration are its own schema's, also when another file of the run defines a same-named, same-shaped definition
 	ruleMultiSel(c, ruleSet("A-REJ", "A-NOEXTRA"), 3, "differing only in minLength", "differing only in maxLength", "differing only in pattern")
